@@ -76,6 +76,7 @@ class Ctx:
         self.side = []
         self.decided = {}
         self._keep = []
+        self._sn = {}
 
     # ---- variables -------------------------------------------------------
     def real(self, name, nan=False, inf=False):
@@ -197,19 +198,24 @@ class Ctx:
         """side constraints relevant to a term (transitively)."""
         if not self.side:
             return []
-        txt = None
         out = []
-        need = [cond]
         used = set()
-        while need:
-            t = need.pop()
-            txt = str(t)
+        names = _const_names(cond)
+        changed = True
+        while changed:
+            changed = False
             for k, (v, c) in enumerate(self.side):
-                if k not in used and str(v) in txt:
+                if k not in used and str(v) in names:
                     used.add(k)
                     out.append(c)
-                    need.append(c)
+                    names |= self._side_names(k, c)
+                    changed = True
         return out
+
+    def _side_names(self, k, c):
+        if k not in self._sn:
+            self._sn[k] = _const_names(c)
+        return self._sn[k]
 
     def radicand(self, t):
         """If t is a sqrt variable, the term it is the square root of."""
@@ -297,6 +303,25 @@ class Ctx:
         """Record a candidate violation (to be replayed by the runner)."""
         self.findings.append(dict(key=key, detail=detail, witness=witness,
                                   **extra))
+
+
+def _const_names(t):
+    """names of the uninterpreted constants of a term (DAG walk)."""
+    seen = set()
+    names = set()
+    stack = [t]
+    while stack:
+        e = stack.pop()
+        i = e.get_id()
+        if i in seen:
+            continue
+        seen.add(i)
+        if z3.is_const(e):
+            if e.decl().kind() == z3.Z3_OP_UNINTERPRETED:
+                names.add(e.decl().name())
+        else:
+            stack.extend(e.children())
+    return names
 
 
 def _pyval(v):
